@@ -59,20 +59,23 @@ type vc06xStream struct {
 }
 
 // vc06xRun performs one case on a fresh connection.
-func vc06xRun(addr string, tlsConf *tls.Config, streams []*vc06xStream, pause1, pause2 time.Duration) error {
+func vc06xRun(addr string, tlsConf *tls.Config, streams []*vc06xStream, pause1, pause2 time.Duration) (took time.Duration, err error) {
 	ctx, cancel := context.WithTimeout(context.Background(), vc06xWait)
 	defer cancel()
 
 	conn, err := quic.DialAddr(ctx, addr, tlsConf.Clone(), nil)
 	if err != nil {
-		return fmt.Errorf("environment: dialing: %w", err)
+		return 0, fmt.Errorf("environment: dialing: %w", err)
 	}
 	defer func() { _ = conn.CloseWithError(0, "") }()
 
+	// The server's read time-out (2 s) starts when it accepts a stream, which is
+	// not before the stream is opened here.
+	start := time.Now()
 	for _, s := range streams {
 		s.got, s.rerr = nil, nil
 		if s.st, err = conn.OpenStreamSync(ctx); err != nil {
-			return fmt.Errorf("environment: opening a stream: %w", err)
+			return 0, fmt.Errorf("environment: opening a stream: %w", err)
 		}
 
 		_ = s.st.SetDeadline(time.Now().Add(vc06xWait))
@@ -117,7 +120,7 @@ func vc06xRun(addr string, tlsConf *tls.Config, streams []*vc06xStream, pause1, 
 		}
 	}
 
-	return nil
+	return time.Since(start), nil
 }
 
 func vc06xFrames(b []byte) (msgs [][]byte, ok bool) {
@@ -290,13 +293,32 @@ func TestVerifC06DoQStreams(t *testing.T) {
 		var verdict error
 		missing := 0
 		for try := 0; try < 2; try++ {
-			if err := vc06xRun(addr, tlsConf, streams, p1, p2); err != nil {
+			took, err := vc06xRun(addr, tlsConf, streams, p1, p2)
+			if err != nil {
 				inconclusive = true
 				fmt.Println("VERIF-INCONCLUSIVE:", err)
 				t.FailNow()
 			}
 
 			if verdict, missing = judge(); verdict != nil || missing == 0 {
+				break
+			}
+
+			// Only valid streams, and the server closed the connection with
+			// DOQ_PROTOCOL_ERROR sooner than its own read time-out can have
+			// expired: it could not decode a stream from that stream's bytes.
+			if !garbage && took < 1500*time.Millisecond {
+				for i, s := range streams {
+					var ae *quic.ApplicationError
+					if errors.As(s.rerr, &ae) && ae.Remote && ae.ErrorCode == 2 {
+						verdict = fmt.Errorf("stream %d (%s): only valid queries on the connection, and %s after the streams were opened the server closed it with DOQ_PROTOCOL_ERROR (its read time-out is 2 s): a query was not decoded from its own bytes; %d streams unanswered", i, s.name, took.Round(time.Millisecond), missing)
+
+						break
+					}
+				}
+			}
+
+			if verdict != nil {
 				break
 			}
 		}
